@@ -149,7 +149,7 @@ class Adversary(Scheduling):
     def run(self, cluster, clock, workflow_plan, existing_schedule, task_pool):
         allocations = copy.copy(existing_schedule)
         d = self._next()
-        if d is not None and d % 16 == 7 and not cluster.is_observation_provisioned(workflow_plan.id):
+        if d is not None and d % 5 == 2 and not cluster.is_observation_provisioned(workflow_plan.id):
             free = len(cluster.get_available_resources())
             if free > 0:
                 cluster.provision_batch_resources(1 + d % free, workflow_plan.id)
@@ -179,6 +179,14 @@ class Adversary(Scheduling):
                 allocations.pop(task, None)       # withdraw / do not propose this round
                 continue
             m = cluster.machines[(d // 4) % len(cluster.machines)]
+            if d % 8 == 1:
+                # deliberately aim at a machine that is neither free nor busy, i.e. reserved - through
+                # public queries only - and not part of this workflow's own reservation
+                free_ = cluster.get_available_resources()
+                own = cluster.get_idle_resources(workflow_plan.id)
+                cand = [x for x in cluster.machines if x not in free_ and not cluster.is_occupied(x) and x not in own]
+                if cand:
+                    m = cand[(d // 8) % len(cand)]
             allocations[task] = m
             handed.append(m)
         if len(workflow_plan.tasks) == 0:
